@@ -280,7 +280,7 @@ func init() {
 						return nil
 					})
 					o.Events += events(res)
-					if res.Verdict != engine.Accept {
+					if !res.AcceptedHonestly() {
 						return fw.Violate("subgroup_x_failed", resStr(res))
 					}
 					for k, idx := range idxs {
@@ -372,7 +372,7 @@ func init() {
 						o.Inc("degenerate_opening_points_rejected")
 						return o
 					}
-					if res.Verdict != engine.Accept {
+					if !res.AcceptedHonestly() {
 						return fw.Violate("combine_initial_failed", resStr(res))
 					}
 					if got := readQE(out); got != want {
@@ -426,7 +426,7 @@ func init() {
 							return nil
 						})
 						o.Events += events(res)
-						if res.Verdict != engine.Accept {
+						if !res.AcceptedHonestly() {
 							// beta on a coset point is the documented degenerate case; it is not generated on purpose
 							return fw.Violate("compute_evaluation_failed", fmt.Sprintf("x=%d within=%d beta=%v: %s", x, within, beta, resStr(res)))
 						}
@@ -534,7 +534,7 @@ func init() {
 						return nil
 					})
 					o.Events += events(res) + 1
-					if res.Verdict != engine.Accept {
+					if !res.AcceptedHonestly() {
 						return fw.Violate("final_poly_eval_failed", resStr(res))
 					}
 					if got, want := readQE(out), ref.PolyEval(coeffs, pt); got != want {
@@ -583,7 +583,7 @@ func init() {
 							return nil
 						})
 						o.Events += events(res)
-						if variant == 0 && res.Verdict != engine.Accept {
+						if variant == 0 && !res.AcceptedHonestly() {
 							return fw.Violate("rejects_valid_round_sequence", fmt.Sprintf("case %s: four valid rounds on one chip: %s %s", c.ID, resStr(res), res.Msg))
 						}
 						if variant == 1 && res.Verdict == engine.Accept {
@@ -609,7 +609,7 @@ func init() {
 					if io, bad := inconclusiveIf(res); bad {
 						return io
 					}
-					if res.Verdict != engine.Accept {
+					if !res.AcceptedHonestly() {
 						return fw.Violate("rejects_valid_round", fmt.Sprintf("case %s index %d (within-coset %d): %s %s", c.ID, idx, idx&15, resStr(res), res.Msg))
 					}
 					o.Inc("valid_rounds_accepted")
